@@ -169,6 +169,12 @@ def exact_matching_exists(probe, vw):
             r1, r2 = probe.flux_residuals(float(vp_), float(vm_), float(Tp_), float(Tm_))
             if abs(r1) > 1e-6 or abs(r2) > 1e-6:
                 continue
+            # a matching whose temperatures lie outside the tabulated range of a phase (for a
+            # traced potential: beyond a spinodal, on the extrapolated equation of state) is
+            # not one the solver has to return
+            if not (hyd.TMinHighT <= float(Tp_) <= hyd.TMaxHighT
+                    and hyd.TMinLowT <= float(Tm_) <= hyd.TMaxLowT):
+                continue
             g = float(vp_) * vw - probe.eos.ref("H", float(Tp_))["csq"]
             sonic.append((float(vp), g, k, float(Tp_), float(Tm_)))
             if g >= 0:
